@@ -252,6 +252,10 @@ class Exec:
                 r = rval(args[1])
                 if isinstance(r, Vec): r = Vec(list(r.c))
                 args[0].set(r); return args[0]
+            if op in ('operator+=', 'operator-=', 'operator*=', 'operator/='):
+                cur = args[0].get(); r = rval(args[1]); o = op[8]
+                nv = {'+': lambda: cur + r, '-': lambda: cur - r, '*': lambda: cur * r, '/': lambda: cur / r}[o]()
+                args[0].set(nv); return args[0]
             vals = [rval(a) for a in args]
             if len(vals) == 1 and op == 'operator-': return -vals[0]
             a, b = vals
